@@ -55,7 +55,7 @@ let () =
         incr pos;
         let args = List.filter_map (fun x -> x) (List.init nargs (fun i ->
           let t = toks.(!pos + i) in
-          if t.[0] = 'E' || t.[0] = 'K' then None else Some (   (* driver directives (errno on entry, failing allocation): not arguments *)
+          if t.[0] = 'E' || t.[0] = 'K' || t.[0] = 'W' then None else Some (   (* driver directives (errno on entry, failing allocation): not arguments *)
           match t.[0] with
           | 'N' -> Z0
           | 'P' -> (match String.split_on_char ':' (String.sub t 1 (String.length t - 1)) with
